@@ -34,7 +34,7 @@ def _alarm(signum, frame):
 
 
 class Run(object):
-    def __init__(self, K, T, C0, script, fallback=True, max_steps=10000, timed=None):
+    def __init__(self, K, T, C0, script, fallback=True, max_steps=10000, timed=None, src_async=False):
         self.K, self.T, self.C0 = K, T, C0
         self.script = [list(e) for e in script]
         self.fallback = fallback
@@ -48,6 +48,8 @@ class Run(object):
         self.max_steps = max_steps
         self.steps = 0
         self.nworkers = 0
+        self.src_async = src_async      # True: get_item() suspends until the environment fires ['src']
+        self.src_fut = None
         self.timed = dict(timed or {})   # loop iteration number -> environment event
         self.ticks = 0
         self.choice_log = []             # (number of pending bodies) at each quiescent point
@@ -88,6 +90,12 @@ class Run(object):
 
             @asyncio.coroutine
             def get_item(self):
+                if run.src_async:
+                    run.src_fut = asyncio.get_event_loop().create_future()
+                    try:
+                        yield from run.src_fut
+                    finally:
+                        run.src_fut = None
                 if run.arm_sraise:
                     run.arm_sraise = False
                     run.log(e='src', v=-1)
@@ -159,6 +167,8 @@ class Run(object):
         k = e[0]
         if k in ('body', 'braise'):
             return (e[1], e[2]) in self.pending
+        if k == 'src':
+            return self.src_fut is not None and not self.src_fut.done()
         return True
 
     def fire(self, e):
@@ -168,7 +178,9 @@ class Run(object):
         if k == 'setc' and e[1] == self.p.concurrency:
             return    # no change: not an event
         self.fired.append(e)
-        if k == 'body':
+        if k == 'src':
+            self.src_fut.set_result(None)
+        elif k == 'body':
             self.pending_order.remove((e[1], e[2]))
             self.pending.pop((e[1], e[2])).set_result(None)
         elif k == 'braise':
@@ -193,6 +205,8 @@ class Run(object):
     def enabled_list(self, budgets=None):
         """All environment events enabled now.  budgets: dict(stop, conc, raise_, cmax) remaining."""
         out = [['body', i, j] for (i, j) in self.pending_order]
+        if self.src_fut is not None and not self.src_fut.done():
+            out.append(['src'])
         b = budgets or {}
         if b.get('stop', 0) > self.n_stop:
             out.append(['stop'])
@@ -223,6 +237,9 @@ class Run(object):
                 self.fire(e)
                 return True
             self.skipped += 1
+        if self.fallback and self.src_fut is not None and not self.src_fut.done():
+            self.fire(['src'])
+            return True
         if self.fallback and self.pending_order:
             i, j = self.pending_order[0]
             self.fire(['body', i, j])
